@@ -15,7 +15,12 @@ OrderKey(R, q, g) == IF Len(q.parts) > 1 /\ Bridges(q) THEN (OuterStart(g) - Out
 Ordered(R, genes, q, res) ==
     (* for a query spanning the origin, a gene that merely overlaps it may touch it at both ends: only the
        genes contained in the query have a defined position there *)
-    LET plain == SelectSeq(res, LAMBDA i : ~Bridges(genes[i]) /\ (Len(q.parts) = 1 \/ Contains(q, genes[i])))
+    (* likewise a gene in several exons has a position along such a query only when the stretch from its first to its
+       last base lies in the query as one arc (its exons may sit at the two ends of the query) *)
+    LET plain == SelectSeq(res, LAMBDA i : /\ ~Bridges(genes[i])
+                                           /\ (Len(q.parts) = 1 \/ Contains(q, genes[i]))
+                                           /\ (Len(q.parts) = 1 \/ Len(genes[i].parts) = 1 \/
+                                               ((OuterStart(genes[i]) - OuterStart(q)) % R.L) + Cardinality(Footprint(R, genes[i])) <= Size(q)))
     IN  \A a \in 1..(Len(plain) - 1) :
             LET ka == OrderKey(R, q, genes[plain[a]])
                 kb == OrderKey(R, q, genes[plain[a + 1]])
